@@ -1,7 +1,7 @@
 #!/usr/bin/env python3
 """TLC model check of models/Reassembly.tla + trace conformance against the real parser.
 
-  models/conformance.py <depth> <harness-binary> [<harness-binary> ...]
+  models/conformance.py <depth>[:<MaxN>] <harness-binary> [<harness-binary> ...]
 
 1. runs TLC (exhaustive BFS of the model, invariant C06, action property NoTrace) with -dump;
 2. extracts EVERY maximal behaviour (states whose history has length = depth) from the dump;
@@ -14,7 +14,9 @@ import json, os, re, subprocess, sys, tempfile, shutil
 HERE = os.path.dirname(os.path.abspath(__file__))
 
 def main():
-    depth = int(sys.argv[1])
+    spec = sys.argv[1].split(":")
+    depth = int(spec[0])
+    maxn = int(spec[1]) if len(spec) > 1 else 3
     bins = sys.argv[2:]
     if shutil.which("tlc") is None:
         print(json.dumps(dict(skipped="tlc not on PATH")))
@@ -25,6 +27,7 @@ def main():
             shutil.copy(os.path.join(HERE, f), work)
         cfg = open(os.path.join(HERE, "Reassembly.cfg")).read()
         cfg = re.sub(r"Depth = \d+", f"Depth = {depth}", cfg)
+        cfg = re.sub(r"MaxN = \d+", f"MaxN = {maxn}", cfg)
         open(os.path.join(work, "Reassembly.cfg"), "w").write(cfg)
         dump = os.path.join(work, "states.dump")
         p = subprocess.run(["tlc", "-workers", "8", "-deadlock", "-dump", dump, "Reassembly.tla"], cwd=work,
@@ -68,7 +71,7 @@ def main():
                     block.append(line.strip())
             flush(block)
         res = dict(model="models/Reassembly.tla", invariant="C06 (history predicate)", action_property="NoTrace",
-                   depth=depth, tlc_states_generated=generated, tlc_distinct_states=distinct,
+                   depth=depth, max_fragment_count=maxn, tlc_states_generated=generated, tlc_distinct_states=distinct,
                    tlc_graph_depth=int(md.group(1)) if md else None, maximal_behaviours=n_beh, builds=[])
         rc = 0
         for b in bins:
